@@ -1019,7 +1019,14 @@ def _conv_gen(draw, avoid):
 
 
 def _multi_ops(c):
-    return [o for o in op_list(c) if len(o[1]) > 1]
+    """the multi-qudit operations as every qudit sees them, in order.
+    (A flat list in iteration order is stricter than 'untouched': operations
+    on disjoint qudits may legitimately end up in another relative order of
+    the grid when single-qudit gates are inserted or merged around them.)"""
+    ops = [o for o in op_list(c) if len(o[1]) > 1]
+    return [
+        [o for o in ops if q in o[1]] for q in range(c.num_qudits)
+    ]
 
 
 def _tou3_post(case, cin, cout, info, out):
